@@ -24,7 +24,7 @@ fn blank() -> Idea {
     Idea { enc_keys: [0u16; 52], dec_keys: [0u16; 52] }
 }
 
-//@ harness name=idea_leaf_mul prop=C09,C01,C20 tier=quick bits=32 est=14 desc="L: Idea::mul(a,b) == a*b mod 65537 with 0 standing for 2^16, and Idea::add(a,b) == a+b mod 2^16, for all 2^32 (a,b); no overflow in the i32/u32 arithmetic"
+//@ harness name=idea_leaf_mul prop=C09,C01,C20 tier=quick bits=32 est=10 desc="L: Idea::mul(a,b) == a*b mod 65537 with 0 standing for 2^16, and Idea::add(a,b) == a+b mod 2^16, for all 2^32 (a,b); no overflow in the i32/u32 arithmetic"
 verif_harness! {
     name: idea_leaf_mul,
     bytes: 4,
@@ -38,7 +38,7 @@ verif_harness! {
     }
 }
 
-//@ harness name=idea_leaf_addinv prop=C09,C01,C20 tier=quick bits=16 est=10 desc="L: add_inv(k) == -k mod 2^16 and add(k, add_inv(k)) == 0 for all 2^16 k (the multiplicative inverse lemma mul(k, mul_inv(k)) == 1 is split over 16 argument ranges in inv16.rs: one query over all 2^16 k -- Euclid loop, 40 32-bit dividers -- finishes neither with CaDiCaL nor with Kissat in 900 s)"
+//@ harness name=idea_leaf_addinv prop=C09,C01,C20 tier=quick bits=16 est=5 desc="L: add_inv(k) == -k mod 2^16 and add(k, add_inv(k)) == 0 for all 2^16 k (the multiplicative inverse lemma mul(k, mul_inv(k)) == 1 is split over 16 argument ranges in inv16.rs: one query over all 2^16 k -- Euclid loop, 40 32-bit dividers -- finishes neither with CaDiCaL nor with Kissat in 900 s)"
 verif_harness! {
     name: idea_leaf_addinv,
     bytes: 2,
@@ -51,7 +51,7 @@ verif_harness! {
     }
 }
 
-//@ harness name=idea_expand prop=C09,C20 tier=quick bits=128 est=16 desc="D: Idea::expand_key(key) fills enc_keys with the 52 sub-keys of the 25-bit-rotation schedule, all 2^128 keys; indices in range"
+//@ harness name=idea_expand prop=C09,C20 tier=quick bits=128 est=10 desc="D: Idea::expand_key(key) fills enc_keys with the 52 sub-keys of the 25-bit-rotation schedule, all 2^128 keys; indices in range"
 verif_harness! {
     name: idea_expand,
     bytes: 16,
@@ -71,7 +71,7 @@ verif_harness! {
     }
 }
 
-//@ harness name=idea_invert_w prop=C09,C20 tier=quick bits=832 stub=1 est=35 desc="W: invert_sub_keys on arbitrary enc_keys places mul_inv / add_inv / copies exactly as the decryption sub-key table of the specification (middle additive keys exchanged in rounds 2..8), mul_inv uninterpreted and shared with the oracle; indices in range"
+//@ harness name=idea_invert_w prop=C09,C20 tier=quick bits=832 stub=1 est=15 desc="W: invert_sub_keys on arbitrary enc_keys places mul_inv / add_inv / copies exactly as the decryption sub-key table of the specification (middle additive keys exchanged in rounds 2..8), mul_inv uninterpreted and shared with the oracle; indices in range"
 verif_harness! {
     name: idea_invert_w,
     bytes: 104,
@@ -96,7 +96,7 @@ verif_harness! {
     }
 }
 
-//@ harness name=idea_new_w prop=C09 tier=quick bits=128 stub=1 est=35 desc="W: Idea::new(key) has enc_keys == oracle schedule and dec_keys == oracle inversion of it, all 2^128 keys, mul_inv uninterpreted"
+//@ harness name=idea_new_w prop=C09 tier=quick bits=128 stub=1 est=15 desc="W: Idea::new(key) has enc_keys == oracle schedule and dec_keys == oracle inversion of it, all 2^128 keys, mul_inv uninterpreted"
 verif_harness! {
     name: idea_new_w,
     bytes: 16,
@@ -128,7 +128,7 @@ fn arb_state(inp: &[u8; 216]) -> (Idea, [u8; 8]) {
     (c, take(inp, 208))
 }
 
-//@ harness name=idea_crypt_w_enc prop=C09,C20 tier=quick bits=896 stub=1 est=80 desc="W: encrypt_block on arbitrary sub-key arrays == 8 rounds + output transformation of the specification with enc_keys, all blocks, mul uninterpreted and shared with the oracle (add is real)"
+//@ harness name=idea_crypt_w_enc prop=C09,C20 tier=quick bits=896 stub=1 est=55 desc="W: encrypt_block on arbitrary sub-key arrays == 8 rounds + output transformation of the specification with enc_keys, all blocks, mul uninterpreted and shared with the oracle (add is real)"
 verif_harness! {
     name: idea_crypt_w_enc,
     bytes: 216,
@@ -142,7 +142,7 @@ verif_harness! {
     }
 }
 
-//@ harness name=idea_crypt_w_dec prop=C09,C20 tier=quick bits=896 stub=1 est=75 desc="W: decrypt_block on arbitrary sub-key arrays == the same data path with dec_keys, all blocks, mul uninterpreted"
+//@ harness name=idea_crypt_w_dec prop=C09,C20 tier=quick bits=896 stub=1 est=50 desc="W: decrypt_block on arbitrary sub-key arrays == the same data path with dec_keys, all blocks, mul uninterpreted"
 verif_harness! {
     name: idea_crypt_w_dec,
     bytes: 216,
